@@ -5,6 +5,7 @@ def unsafe_decode(string):
   return gfapy.ByteArray(string)
 
 def decode(string):
+  validate_encoded(string)
   return gfapy.ByteArray(string)
 
 def validate_encoded(string):
